@@ -95,7 +95,7 @@ def run_case(ctx, case):
         presig = tuple(kinds)[:3]
         seen = ctx.__dict__.setdefault("presig_seen", {})
         seen[presig] = seen.get(presig, 0) + 1
-        if seen[presig] > 2:
+        if seen[presig] > 2 and ctx.corpus_idx is None:     # corpus inputs are always classified (exact-input findings)
             ctx.count("violations_not_shrunk(repeat of an already classified pre-signature)")
             ctx.evaluations += 1
             continue
@@ -105,7 +105,7 @@ def run_case(ctx, case):
             if not r2.get("compiled") or "panic" in r2:
                 return False
             return bool(check_run(r2, r2["runs"][0])[0])
-        small = cc.shrink_full(stmts, still, budget=200)
+        small = cc.shrink_full(stmts, still, budget=200 if ctx.corpus_idx is None else 16)
         _, r2 = fc.run_full(ctx, small, [event])
         b2 = (check_run(r2, r2["runs"][0])[0] if r2.get("compiled") else bad) or bad
         ctx.violation(classify(small, b2[0][0]), {"src": A.program_src(small), "event": repr(event)[:300],
